@@ -246,7 +246,7 @@ def run_scenario(scn, want_events=True, twin_fin=None):
         bad = ("C01", "conquest_order_entry_not_a_training_position")
     if bad:
         return None, ("violation", bad[0], bad[1], "ids outside 0..n-1 in the recorded forest: pred=%s order=%s" % (fin["pred"], fin["order"]))
-    extra = {"flags": flags, "raw": fin, "qres": qres}
+    extra = {"flags": flags, "raw": fin, "qres": qres, "rk": rk, "W": W, "DQ": [[rk(DQ[t, j]) for t in range(n)] for j in range(len(Q))]}
     tr["_extra"] = extra
     return tr, None
 
